@@ -240,3 +240,29 @@ theorem unionHstack_ok (kinds : List OutKind) : unionHstack kinds = .ok () := by
     simp [h]
 
 end SkVerif.C16.Lem
+
+namespace SkVerif.C16.Lem
+open SkVerif SkVerif.C16
+
+/-! ### cells read by label -/
+
+theorem lookupCell_labelsFrom (k : Int) (vals : List Rat) (l : Int) :
+    lookupCell (labelsFrom k vals.length) vals l = cellAt vals (l - k) := by
+  induction vals generalizing k with
+  | nil => simp [labelsFrom, lookupCell, cellAt]
+  | cons v t ih =>
+    simp only [List.length_cons, labelsFrom, lookupCell]
+    by_cases h : k = l
+    · subst h; simp [cellAt]
+    · have hb : (k == l) = false := by simpa using h
+      simp only [hb, Bool.false_eq_true, if_false]
+      rw [ih (k + 1)]
+      unfold cellAt
+      by_cases h1 : l - k < 0
+      · have : l - (k + 1) < 0 := by omega
+        simp [h1, this]
+      · have h2 : ¬ l - (k + 1) < 0 := by omega
+        have h3 : (l - k).toNat = (l - (k + 1)).toNat + 1 := by omega
+        simp [h1, h2, h3]
+
+end SkVerif.C16.Lem
